@@ -248,7 +248,9 @@ func (dev DeviceHinting) GetDelta(ppem uint16, scale int32) int32 {
 
 	pixels := dev.Values[ppem-dev.StartSize]
 
-	return int32(pixels) * (scale / int32(ppem))
+	// multiply first (upstream: pixels * (int64_t) scale / ppem): dividing the scale first
+	// drops up to ppem-1 units of it per pixel
+	return int32(int64(pixels) * int64(scale) / int64(ppem))
 }
 
 // -------------------------------------- gdef --------------------------------------
